@@ -344,9 +344,36 @@ def bi_set(eng, args, kwargs, fr):
             return frozenset(c)
         raise Unsupported("set of the values of a dict of unknown size")
     if isinstance(v, SeqIter) and v.kind == "genexp":
+        r = _labels_of_keys(eng, v)
+        if r is not None:
+            return r
         mode, key = recognize_member_filter(eng, v)
         return SeqIter("setfiltered", (mode, key))
     raise Unsupported("set(%s)" % type(v).__name__)
+
+
+def _labels_of_keys(eng, gen):
+    """set(v for k in d for v in k): the labels that occur in the keys of the dict"""
+    n, fr = gen.data
+    if len(n.generators) != 2 or any(g.ifs for g in n.generators):
+        return None
+    g1, g2 = n.generators
+    if not (isinstance(g1.target, ast.Name) and isinstance(g2.target, ast.Name) and isinstance(g2.iter, ast.Name)
+            and g2.iter.id == g1.target.id and isinstance(n.elt, ast.Name) and n.elt.id == g2.target.id):
+        return None
+    src = eng.eval(g1.iter, fr)
+    if not (isinstance(src, DictVal) or (isinstance(src, PObj) and src.store is not None)):
+        return None
+    ver = eng.store_of(src)
+    if ver.ksort != T.Key:
+        return None
+    mem = FO.keylabels_of(eng, ver)
+    eng.nfresh += 1
+    card = z3.Int("card!%d" % eng.nfresh)
+    eng.facts.add(z3.And(card >= 0, card == T.CARD(mem)))
+    # a set without members has cardinality 0 and conversely (needed for `not variables`)
+    eng.facts.add((card == 0) == (mem == z3.K(T.Label, z3.BoolVal(False))))
+    return eng.alloc(SetVal(mem, card))
 
 
 def bi_sorted(eng, args, kwargs, fr):
@@ -447,15 +474,16 @@ def bi_min(eng, args, kwargs, fr):
     return _minmax(eng, args, False)
 
 
-def _extremum_over_view(eng, gen, ismax):
-    """max(abs(v) for v in d.values()) (also written over .items()) over a symbolic dict: the largest coefficient
-    magnitude (folds.maxabs_of); ValueError on an empty dict.  The element expression is recognised semantically:
-    it must be equal to |value| for an arbitrary item."""
+def _view_item(eng, gen):
+    """single-generator genexp over a view of a symbolic dict: (ver, mode, k, v, frame with the target bound)"""
     n, fr = gen.data
-    if len(n.generators) != 1 or n.generators[0].ifs or not ismax:
+    if len(n.generators) != 1:
         return None
     g = n.generators[0]
     src = eng.eval(g.iter, fr)
+    if isinstance(src, DictVal) or (isinstance(src, PObj) and src.store is not None):
+        holder = src.store if isinstance(src, PObj) else src
+        src = ItemsView(eng.store_of(holder), "keys", owner=holder)
     if not isinstance(src, ItemsView) or eng.concrete_iter(src) is not None:
         return None
     ver = src.ver
@@ -466,23 +494,87 @@ def _extremum_over_view(eng, gen, ismax):
     from .interp import Frame
     sub = Frame(fr.closure, dict(fr.locals), fr.self_obj, fr.defining_cls)
     eng.assign(g.target, item, sub)
+    return ver, k, v, sub, g, n
+
+
+def _spec_eval(eng, node, fr):
     eng.spec += 1
     try:
-        elt = eng.eval(n.elt, sub)
+        return eng.eval(node, fr)
     finally:
         eng.spec -= 1
-    if not isinstance(elt, SV) or elt.t not in ("real", "int"):
+
+
+def _is_abs_of(eng, elt, vv):
+    return isinstance(elt, SV) and elt.t in ("real", "int") and not eng.feasible(zreal(elt) != FO._abs(vv))
+
+
+def _extremum_over_view(eng, gen, ismax):
+    """max(abs(v) for v in d.values()) (also written over .items()): the largest coefficient magnitude
+    (folds.maxabs_of); min(abs(c) for k, c in d.items() if k): the smallest magnitude among the non-constant terms
+    (folds.minabs_nc_of); ValueError on an empty sequence.  Element and filter are recognised semantically."""
+    it = _view_item(eng, gen)
+    if it is None:
         return None
-    if eng.feasible(zreal(elt) != FO._abs(vv)):
+    ver, k, v, sub, g, n = it
+    if ver.ksort != T.Key and not ismax:
         return None
-    sz = FO.fold(eng, ver, "size")
-    if not eng.branch(sz > 0):
-        raise PyExc("ValueError", "max() of an empty dict view")
-    M = FO.maxabs_of(eng, ver)
-    kw = ver.maxabs_at
-    if not any(kw.eq(pk) for pk, _ in ver.picked):
-        FO.note_present(eng, ver, kw, z3.Select(ver.val, kw))       # the dict is not empty here: the witness is an item
-    return SV(M, "real")
+    if ismax and not g.ifs:
+        if not _is_abs_of(eng, _spec_eval(eng, n.elt, sub), v.e if v.t == "real" else z3.ToReal(v.e)):
+            return None
+        sz = FO.fold(eng, ver, "size")
+        if not eng.branch(sz > 0):
+            raise PyExc("ValueError", "max() of an empty dict view")
+        M = FO.maxabs_of(eng, ver)
+        kw = ver.maxabs_at
+        if not any(kw.eq(pk) for pk, _ in ver.picked):
+            FO.note_present(eng, ver, kw, z3.Select(ver.val, kw))       # the dict is not empty here: the witness is an item
+        return SV(M, "real")
+    if not ismax and len(g.ifs) == 1:
+        cond = _to_z3bool(eng.tobool(_spec_eval(eng, g.ifs[0], sub)))
+        if eng.feasible(cond != (z3.Length(k.e) != 0)):
+            return None
+        if not _is_abs_of(eng, _spec_eval(eng, n.elt, sub), v.e):
+            return None
+        ac = FO.fold(eng, ver, "allconst")
+        if eng.branch(ac):
+            raise PyExc("ValueError", "min() of an empty sequence")
+        return SV(FO.minabs_nc_of(eng, ver), "real")
+    return None
+
+
+def _max_of_sums(eng, gen):
+    """max(sum(abs(c) for k, c in d.items() if v in k) for v in S) over a symbolic set S of labels:
+    folds.absw_max_of; ValueError when S is empty"""
+    n, fr = gen.data
+    if len(n.generators) != 1 or n.generators[0].ifs or not isinstance(n.generators[0].target, ast.Name):
+        return None
+    g = n.generators[0]
+    S = eng.eval(g.iter, fr)
+    if not isinstance(S, SetVal):
+        return None
+    e = n.elt
+    if not (isinstance(e, ast.Call) and isinstance(e.func, ast.Name) and e.func.id == "sum" and len(e.args) == 1
+            and isinstance(e.args[0], ast.GeneratorExp) and not e.keywords):
+        return None
+    from .interp import Frame
+    vl = eng.fresh("label", "v")
+    outer = Frame(fr.closure, dict(fr.locals), fr.self_obj, fr.defining_cls)
+    outer.locals[g.target.id] = vl
+    it = _view_item(eng, SeqIter("genexp", (e.args[0], outer)))
+    if it is None:
+        return None
+    ver, k, v, sub, ig, inn = it
+    if ver.ksort != T.Key or len(ig.ifs) != 1:
+        return None
+    cond = _to_z3bool(eng.tobool(_spec_eval(eng, ig.ifs[0], sub)))
+    if eng.feasible(cond != T.memb(vl.e, k.e)):
+        return None
+    if not _is_abs_of(eng, _spec_eval(eng, inn.elt, sub), v.e):
+        return None
+    if not eng.branch(S.card > 0):
+        raise PyExc("ValueError", "max() of an empty sequence")
+    return SV(FO.absw_max_of(eng, ver, S.mem, S.card), "real")
 
 
 def _minmax(eng, args, ismax):
@@ -490,6 +582,8 @@ def _minmax(eng, args, ismax):
         c = eng.concrete_iter(args[0])
         if c is None and isinstance(args[0], SeqIter) and args[0].kind == "genexp":
             r = _extremum_over_view(eng, args[0], ismax)
+            if r is None and ismax:
+                r = _max_of_sums(eng, args[0])
             if r is not None:
                 return r
         if c is None:
@@ -643,8 +737,29 @@ def bi_str(eng, args, kwargs, fr):
     raise Unsupported("str() of symbolic value")
 
 
+LOG = z3.Function("ln", T.Real, T.Real)
+
+
 def bi_math_log(eng, args, kwargs, fr):
-    raise Unsupported("log")
+    """math.log(x): an uninterpreted function that is negative on (0, 1), zero at 1, positive above, and monotone
+    (instantiated pairwise between the arguments that occur); ValueError for x <= 0"""
+    if len(args) != 1:
+        raise Unsupported("log with a base")
+    x = zreal(args[0])
+    if not eng.branch_quiet(x > 0):
+        raise PyExc("ValueError", "math domain error")
+    r = LOG(x)
+    eng.facts.add(z3.And(z3.Implies(x < 1, r < 0), z3.Implies(x == 1, r == 0), z3.Implies(x > 1, r > 0)))
+    seen = getattr(eng.facts, "_logs", None)
+    if seen is None:
+        seen = eng.facts._logs = []
+    for y in seen:
+        eng.facts.add(z3.And(z3.Implies(x <= y, r <= LOG(y)), z3.Implies(y <= x, LOG(y) <= r)))
+    seen.append(x)
+    return SV(r, "real")
+
+
+bi_log = bi_math_log
 
 
 def bi_ceil(eng, args, kwargs, fr):
@@ -1135,6 +1250,15 @@ def fold_genexp(eng, gen, how, start):
             raise PathInfeasible()
         total = FO.fold(eng, ver, spec["fold"])
         return eng.binop(ast.Add(), start, SV(total, "real"))
+    if how == "any" and not g.ifs:
+        it = _view_item(eng, gen)
+        if it is not None and it[0].ksort == T.Key:
+            ver, k, v, sub, _, _ = it
+            phi = _to_z3bool(eng.tobool(_spec_eval(eng, n.elt, sub)))
+            if not eng.feasible(phi != (z3.Length(k.e) != 0)):
+                # any(k for k in d): some key is not the empty tuple
+                FO.nonconst_witness(eng, ver)
+                return SV(z3.Not(FO.fold(eng, ver, "allconst")), "bool")
     if isinstance(src, ItemsView) and how == "all" and not g.ifs:
         # all(pred(item) for item in d.values()/items()/keys()): recognised when pred is `value == c` for a literal c
         ver = src.ver
